@@ -50,7 +50,7 @@ def M2(p):
     return p[0] ** 2 - p[1] ** 2 - p[2] ** 2 - p[3] ** 2
 
 
-def run(repo, chk, tier):
+def run(repo, chk, tier, parts=("dalitz", "boost", "helicity", "frame")):
     chk.rule("E6-dalitz", "momenta built from Dalitz variables reproduce them: energy-momentum conservation, mass shells, (p1+p2)^2=m12, (p2+p3)^2=m23")
     chk.rule("E6-boost", "boost round trip, invariance of M2 / Dot, boost matrix == vector boost, rest_vector == boost by -p/E")
     chk.assume("tensor component model: a four-vector is an object array of 4 sympy expressions; tf.stack/concat/expand_dims/reduce_sum/eye follow numpy broadcasting semantics")
@@ -75,92 +75,94 @@ def run(repo, chk, tier):
         except Unmodelled as e:
             raise AnalysisError("%s is not a single-path kernel any more: %s" % (key, e))
 
-    # ---- (a) Dalitz
-    m12, m23, m0, m1, m2, m3 = sp.symbols("m12 m23 m0 m1 m2 m3", positive=True)
-    res = call(DAL + "generate_p", [m12, m23, m0, m1, m2, m3])
-    if not (isinstance(res, tuple) and len(res) == 3 and all(isinstance(p, np.ndarray) and p.shape == (4,) for p in res)):
-        raise AnalysisError("generate_p no longer returns three four-vectors")
-    p1, p2, p3 = res
-    W = DAL + "generate_p"
-    oblige("E6-dalitz", "E1+E2+E3 == m0", p1[0] + p2[0] + p3[0], m0, W, "energy")
-    for k, nm in ((1, "x"), (2, "y"), (3, "z")):
-        oblige("E6-dalitz", "sum p_%s == 0" % nm, p1[k] + p2[k] + p3[k], 0, W, "momentum-%s" % nm)
-    for p, mm, nm in ((p1, m1, "1"), (p2, m2, "2"), (p3, m3, "3")):
-        oblige("E6-dalitz", "E%s^2 - |p%s|^2 == m%s^2" % (nm, nm, nm), M2(p), mm ** 2, W, "shell-%s" % nm)
-    oblige("E6-dalitz", "(p1+p2)^2 == m12", M2(p1 + p2), m12, W, "m12")
-    oblige("E6-dalitz", "(p2+p3)^2 == m23", M2(p2 + p3), m23, W, "m23")
-    oblige("E6-dalitz", "(p1+p3)^2 == m0^2+m1^2+m2^2+m3^2-m12-m23", M2(p1 + p3), m0 ** 2 + m1 ** 2 + m2 ** 2 + m3 ** 2 - m12 - m23, W, "m13")
-    # the class wrapper passes its masses in the declared order
-    d = repo.fn("tf_pwa/data_trans/dalitz.py::Dalitz.generate_p")
-    import ast
+    if "dalitz" in parts:
+        # ---- (a) Dalitz
+        m12, m23, m0, m1, m2, m3 = sp.symbols("m12 m23 m0 m1 m2 m3", positive=True)
+        res = call(DAL + "generate_p", [m12, m23, m0, m1, m2, m3])
+        if not (isinstance(res, tuple) and len(res) == 3 and all(isinstance(p, np.ndarray) and p.shape == (4,) for p in res)):
+            raise AnalysisError("generate_p no longer returns three four-vectors")
+        p1, p2, p3 = res
+        W = DAL + "generate_p"
+        oblige("E6-dalitz", "E1+E2+E3 == m0", p1[0] + p2[0] + p3[0], m0, W, "energy")
+        for k, nm in ((1, "x"), (2, "y"), (3, "z")):
+            oblige("E6-dalitz", "sum p_%s == 0" % nm, p1[k] + p2[k] + p3[k], 0, W, "momentum-%s" % nm)
+        for p, mm, nm in ((p1, m1, "1"), (p2, m2, "2"), (p3, m3, "3")):
+            oblige("E6-dalitz", "E%s^2 - |p%s|^2 == m%s^2" % (nm, nm, nm), M2(p), mm ** 2, W, "shell-%s" % nm)
+        oblige("E6-dalitz", "(p1+p2)^2 == m12", M2(p1 + p2), m12, W, "m12")
+        oblige("E6-dalitz", "(p2+p3)^2 == m23", M2(p2 + p3), m23, W, "m23")
+        oblige("E6-dalitz", "(p1+p3)^2 == m0^2+m1^2+m2^2+m3^2-m12-m23", M2(p1 + p3), m0 ** 2 + m1 ** 2 + m2 ** 2 + m3 ** 2 - m12 - m23, W, "m13")
+        # the class wrapper passes its masses in the declared order
+        d = repo.fn("tf_pwa/data_trans/dalitz.py::Dalitz.generate_p")
+        import ast
 
-    from ..model import norm_text, walk_local
+        from ..model import norm_text, walk_local
 
-    r = [n for n in walk_local(d.node) if isinstance(n, ast.Return)][0]
-    ok = norm_text(r.value) == "generate_p(m12, m23, self.m0, *self.mi)"
-    init = repo.fn("tf_pwa/data_trans/dalitz.py::Dalitz.__init__")
-    mi = [norm_text(n.value) for n in walk_local(init.node) if isinstance(n, ast.Assign) and norm_text(n.targets[0]) == "self.mi"]
-    ok = ok and mi == ["[m1, m2, m3]"]
-    chk.oblige("E6-dalitz", "Dalitz.generate_p forwards (m12, m23, m0, m1, m2, m3) in order", ok)
-    if not ok:
-        chk.violation("E6-dalitz", d.key, "forward", "Dalitz.generate_p no longer forwards m12, m23, m0, [m1, m2, m3] in the kernel's order: %s / %s" % (norm_text(r.value), mi), file="tf_pwa/data_trans/dalitz.py", line=d.lineno)
+        r = [n for n in walk_local(d.node) if isinstance(n, ast.Return)][0]
+        ok = norm_text(r.value) == "generate_p(m12, m23, self.m0, *self.mi)"
+        init = repo.fn("tf_pwa/data_trans/dalitz.py::Dalitz.__init__")
+        mi = [norm_text(n.value) for n in walk_local(init.node) if isinstance(n, ast.Assign) and norm_text(n.targets[0]) == "self.mi"]
+        ok = ok and mi == ["[m1, m2, m3]"]
+        chk.oblige("E6-dalitz", "Dalitz.generate_p forwards (m12, m23, m0, m1, m2, m3) in order", ok)
+        if not ok:
+            chk.violation("E6-dalitz", d.key, "forward", "Dalitz.generate_p no longer forwards m12, m23, m0, [m1, m2, m3] in the kernel's order: %s / %s" % (norm_text(r.value), mi), file="tf_pwa/data_trans/dalitz.py", line=d.lineno)
 
-    # ---- (b) boosts
-    E, px, py, pz = sp.symbols("E px py pz", real=True)
-    F, qx, qy, qz = sp.symbols("F qx qy qz", real=True)
-    bx, by, bz = sp.symbols("bx by bz", real=True)
-    p = np.array([E, px, py, pz], dtype=object)
-    q = np.array([F, qx, qy, qz], dtype=object)
-    b = np.array([bx, by, bz], dtype=object)
-    B = LV + "boost"
-    pb = call(B, [p, b])
-    if not (isinstance(pb, np.ndarray) and pb.shape == (4,)):
-        raise AnalysisError("LorentzVector.boost does not return a four-vector")
-    oblige("E6-boost", "M2(boost(p, b)) == M2(p)", M2(pb), M2(p), B, "mass")
-    back = call(B, [pb, -b])
-    for k, nm in enumerate("TXYZ"):
-        oblige("E6-boost", "boost(boost(p, b), -b)[%s] == p[%s]" % (nm, nm), back[k], p[k], B, "roundtrip-%s" % nm)
-    qb = call(B, [q, b])
-    dot0 = call(LV + "Dot", [p, q])
-    oblige("E6-boost", "Dot(p, q) == T T' - X X' - Y Y' - Z Z'", dot0, E * F - px * qx - py * qy - pz * qz, LV + "Dot", "metric")
-    oblige("E6-boost", "Dot(boost(p,b), boost(q,b)) == Dot(p, q)", call(LV + "Dot", [pb, qb]), dot0, B, "dot-invariance")
-    oblige("E6-boost", "M2(p) == T^2 - X^2 - Y^2 - Z^2", call(LV + "M2", [p]), M2(p), LV + "M2", "m2")
-    ng = call(LV + "neg", [p])
-    for k, nm in enumerate("TXYZ"):
-        oblige("E6-boost", "neg(p)[%s]" % nm, ng[k], p[k] if k == 0 else -p[k], LV + "neg", "neg-%s" % nm)
-    Ea = sp.Symbol("Ea", positive=True)
-    ax, ay, az = sp.symbols("ax ay az", real=True)
-    a = np.array([Ea, ax, ay, az], dtype=object)
-    beta = np.array([ax / Ea, ay / Ea, az / Ea], dtype=object)
-    bv = call(LV + "boost_vector", [a])
-    for k in range(3):
-        oblige("E6-boost", "boost_vector(a)[%d] == a_%s / a_T" % (k, "XYZ"[k]), bv[k], beta[k], LV + "boost_vector", "beta-%d" % k)
-    Mx = call(LV + "boost_matrix", [a])
-    if not (isinstance(Mx, np.ndarray) and Mx.shape == (4, 4)):
-        raise AnalysisError("boost_matrix does not return a 4x4 matrix in the component model")
-    fwd = call(B, [p, beta])
-    Mp = np.dot(Mx, p)
-    for k, nm in enumerate("TXYZ"):
-        oblige("E6-boost", "(boost_matrix(a) . p)[%s] == boost(p, a_vec/a_T)[%s]" % (nm, nm), Mp[k], fwd[k], LV + "boost_matrix", "matrix-%s" % nm)
-    for i in range(4):
-        for j in range(i + 1, 4):
-            oblige("E6-boost", "boost_matrix symmetric [%d,%d]" % (i, j), Mx[i, j], Mx[j, i], LV + "boost_matrix", "symmetric-%d%d" % (i, j))
-    rv = call(LV + "rest_vector", [a, p])
-    bwd = call(B, [p, -beta])
-    for k, nm in enumerate("TXYZ"):
-        oblige("E6-boost", "rest_vector(a, p)[%s] == boost(p, -a_vec/a_T)[%s]" % (nm, nm), rv[k], bwd[k], LV + "rest_vector", "rest-%s" % nm)
-    rs = call(LV + "rest_vector", [a, a])
-    for k in (1, 2, 3):
-        oblige("E6-boost", "rest_vector(a, a)[%s] == 0" % "TXYZ"[k], rs[k], 0, LV + "rest_vector", "self-%d" % k)
-    oblige("E6-boost", "rest_vector(a, a)[T]^2 == M2(a)", rs[0] ** 2, M2(a), LV + "rest_vector", "self-mass")
-    from .c11_helicity import check_helicity_step
+    if "boost" in parts:
+        # ---- (b) boosts
+        E, px, py, pz = sp.symbols("E px py pz", real=True)
+        F, qx, qy, qz = sp.symbols("F qx qy qz", real=True)
+        bx, by, bz = sp.symbols("bx by bz", real=True)
+        p = np.array([E, px, py, pz], dtype=object)
+        q = np.array([F, qx, qy, qz], dtype=object)
+        b = np.array([bx, by, bz], dtype=object)
+        B = LV + "boost"
+        pb = call(B, [p, b])
+        if not (isinstance(pb, np.ndarray) and pb.shape == (4,)):
+            raise AnalysisError("LorentzVector.boost does not return a four-vector")
+        oblige("E6-boost", "M2(boost(p, b)) == M2(p)", M2(pb), M2(p), B, "mass")
+        back = call(B, [pb, -b])
+        for k, nm in enumerate("TXYZ"):
+            oblige("E6-boost", "boost(boost(p, b), -b)[%s] == p[%s]" % (nm, nm), back[k], p[k], B, "roundtrip-%s" % nm)
+        qb = call(B, [q, b])
+        dot0 = call(LV + "Dot", [p, q])
+        oblige("E6-boost", "Dot(p, q) == T T' - X X' - Y Y' - Z Z'", dot0, E * F - px * qx - py * qy - pz * qz, LV + "Dot", "metric")
+        oblige("E6-boost", "Dot(boost(p,b), boost(q,b)) == Dot(p, q)", call(LV + "Dot", [pb, qb]), dot0, B, "dot-invariance")
+        oblige("E6-boost", "M2(p) == T^2 - X^2 - Y^2 - Z^2", call(LV + "M2", [p]), M2(p), LV + "M2", "m2")
+        ng = call(LV + "neg", [p])
+        for k, nm in enumerate("TXYZ"):
+            oblige("E6-boost", "neg(p)[%s]" % nm, ng[k], p[k] if k == 0 else -p[k], LV + "neg", "neg-%s" % nm)
+        Ea = sp.Symbol("Ea", positive=True)
+        ax, ay, az = sp.symbols("ax ay az", real=True)
+        a = np.array([Ea, ax, ay, az], dtype=object)
+        beta = np.array([ax / Ea, ay / Ea, az / Ea], dtype=object)
+        bv = call(LV + "boost_vector", [a])
+        for k in range(3):
+            oblige("E6-boost", "boost_vector(a)[%d] == a_%s / a_T" % (k, "XYZ"[k]), bv[k], beta[k], LV + "boost_vector", "beta-%d" % k)
+        Mx = call(LV + "boost_matrix", [a])
+        if not (isinstance(Mx, np.ndarray) and Mx.shape == (4, 4)):
+            raise AnalysisError("boost_matrix does not return a 4x4 matrix in the component model")
+        fwd = call(B, [p, beta])
+        Mp = np.dot(Mx, p)
+        for k, nm in enumerate("TXYZ"):
+            oblige("E6-boost", "(boost_matrix(a) . p)[%s] == boost(p, a_vec/a_T)[%s]" % (nm, nm), Mp[k], fwd[k], LV + "boost_matrix", "matrix-%s" % nm)
+        for i in range(4):
+            for j in range(i + 1, 4):
+                oblige("E6-boost", "boost_matrix symmetric [%d,%d]" % (i, j), Mx[i, j], Mx[j, i], LV + "boost_matrix", "symmetric-%d%d" % (i, j))
+        rv = call(LV + "rest_vector", [a, p])
+        bwd = call(B, [p, -beta])
+        for k, nm in enumerate("TXYZ"):
+            oblige("E6-boost", "rest_vector(a, p)[%s] == boost(p, -a_vec/a_T)[%s]" % (nm, nm), rv[k], bwd[k], LV + "rest_vector", "rest-%s" % nm)
+        rs = call(LV + "rest_vector", [a, a])
+        for k in (1, 2, 3):
+            oblige("E6-boost", "rest_vector(a, a)[%s] == 0" % "TXYZ"[k], rs[k], 0, LV + "rest_vector", "self-%d" % k)
+        oblige("E6-boost", "rest_vector(a, a)[T]^2 == M2(a)", rs[0] ** 2, M2(a), LV + "rest_vector", "self-mass")
+    from .c11_helicity import check_frame_typing, check_helicity_step
 
-    check_helicity_step(repo, chk, oblige)
-    from .c11_helicity import check_frame_typing
-
-    check_frame_typing(repo, chk)
+    if "helicity" in parts:
+        check_helicity_step(repo, chk, oblige)
+    if "frame" in parts:
+        check_frame_typing(repo, chk)
     chk.extra["kernels_inlined"] = sorted(tr.inlined)
     chk.extra["domain_assumptions_used"] = sorted(set(tr.assumed))[:10]
     chk.info("not decided as a whole: helicity-angle round trip over decay topologies (cal_helicity_angle / HelicityAngle.build_data): data-dependent frame bookkeeping")
-    if chk.obligations < 44:
+    if len(parts) == 4 and chk.obligations < 44:
         raise AnalysisError("only %d C11 obligations generated" % chk.obligations)
